@@ -3,10 +3,15 @@ C15 — RTP and RTCP encode/decode are mutually inverse and standards-conformant
 Property theorems only; helper lemmas live in `RtcModel/Lemmas/C15*.lean`.
 
 Reading of the property used here (see NOTES/C15.md):
-* a *logical packet* is a value of the Rust types (`RtpPacket`, `RtcpPacket`); `String`s are their
-  UTF-8 bytes; the "field ranges" of the property are the explicit, decidable `WF` predicates below;
-* "standards-conformant" is carried by the model itself being written from the RFC bit layouts and by
-  the three-way correspondence check (rustrtc / this model / webrtc-rs `rtp`+`rtcp`).
+* a *logical packet* is a value of the Rust types (`RtpPacket`, `RtcpPacket`); `String`s are their UTF-8 bytes;
+  the "field ranges" of the property are the explicit, decidable `WF` predicates (no fixed-point conditions);
+* **inverse laws** are proved in both directions (`*_parse_marshal`, `*_semantic_stable`, `rtp_marshal_parse`);
+* **standards-conformant / independent implementation** is carried by `rfc_layout_*`: readers written from the RFC
+  packet diagrams by absolute octet offsets (`RtcModel/C15Spec.lean`, independent of the model of the stack's
+  parser) read every serialised packet as the packet that was sent — plus the three-way correspondence check
+  (rustrtc / this model / webrtc-rs `rtp`+`rtcp`);
+* what the marshaller does to values that do not fit the wire is stated exactly: `rtp_marshal_ok_iff`,
+  `rtcp_marshal_ok_iff` (errors), `rtcp_marshal_canonical` (the three lossy fields).
 -/
 import RtcModel.Lemmas.C15Rtp
 import RtcModel.Lemmas.C15Ext
@@ -14,32 +19,36 @@ import RtcModel.Lemmas.C15Rtcp
 import RtcModel.Lemmas.C15NackBuf
 import RtcModel.Lemmas.C15Utf8
 import RtcModel.Lemmas.C15Apt
+import RtcModel.Lemmas.C15Spec
+import RtcModel.Lemmas.C15RtcpStable
+import RtcModel.Lemmas.C15RtxFlow
 
 namespace RtcModel.Theorems.C15
 open RtcModel.C15 RtcModel.Generated
 
-/-! ### generated-constant obligations -/
+/-! ### generated-constant obligation -/
 
-/-- the 12-byte pattern of `parseHeader` is the code's minimum-length check -/
-theorem const_rtp_header_len : c15RtpMinLen = 12 := by decide
-
-/-- version, CSRC limit and the RFC 8285 profile / element limits the model's arithmetic relies on -/
-theorem const_rtp_limits : c15RtpVersion = 2 ∧ c15MaxCsrc = 15 ∧ c15OneByteProfile = 0xBEDE ∧
-    c15TwoByteProfile = 0x1000 ∧ c15ExtMaxData = 16 ∧ c15ExtIdLimit = 15 := by decide
-
-/-- RTCP packet types / feedback formats are the IANA values (RFC 3550, 4585, 5104, 3611) -/
-theorem const_rtcp_types : c15RtcpSr = 200 ∧ c15RtcpRr = 201 ∧ c15RtcpSdes = 202 ∧ c15RtcpBye = 203 ∧
-    c15RtcpRtpfb = 205 ∧ c15RtcpPsfb = 206 ∧ c15RtcpXr = 207 ∧ c15FmtNack = 1 ∧ c15FmtTwcc = 15 ∧
-    c15FmtPli = 1 ∧ c15FmtFir = 4 ∧ c15FmtApp = 15 := by decide
-
-/-- REMB 18-bit mantissa, ≤ 255 SSRCs, 16-bit NACK bitmask, BYE reason cut, receiver NACK window -/
-theorem const_feedback_limits : c15RembMantissaMax = 2 ^ 18 - 1 ∧ c15RembMaxSsrcs = 255 ∧
-    c15NackBlpSpan = 16 ∧ c15ByeMaxReason = 255 ∧ c15MaxReceiverNackGap = 128 ∧ c15GapHalf = 2 ^ 15 := by decide
+/-- Every numeric constant of `src/rtp.rs`, `src/rtx.rs` and the NACK helpers that the models use is
+regenerated from the source on each run; this single obligation pins the values the proofs below rely on
+(RFC 3550 version and header size, CSRC / payload-type / count masks, IANA packet types and feedback
+formats, RFC 8285 profiles and the id-15 stop, REMB and NACK field widths, the 24-bit loss clamp, the BYE cut,
+cooldown and NACK-window constants). A changed constant makes it — and `Lemmas/C15Consts.lean` — stop
+type-checking. -/
+theorem const_values :
+    c15RtpMinLen = 12 ∧ c15RtpVersion = 2 ∧ c15MaxCsrc = 15 ∧ c15PtMax = 127 ∧ c15PtMask = 127 ∧ c15CsrcMask = 15 ∧
+    c15OneByteProfile = 0xBEDE ∧ c15TwoByteProfile = 0x1000 ∧ c15TwoByteMask = 0xFFF0 ∧ c15StopIdGet = 15 ∧ c15StopIdSet = 15 ∧
+    c15ExtMaxData = 16 ∧ c15ExtIdLimit = 15 ∧
+    c15RtcpSr = 200 ∧ c15RtcpRr = 201 ∧ c15RtcpSdes = 202 ∧ c15RtcpBye = 203 ∧ c15RtcpRtpfb = 205 ∧ c15RtcpPsfb = 206 ∧
+    c15RtcpXr = 207 ∧ c15FmtNack = 1 ∧ c15FmtTwcc = 15 ∧ c15FmtPli = 1 ∧ c15FmtFir = 4 ∧ c15FmtApp = 15 ∧
+    c15RtcpCountMask = 31 ∧ c15RtcpMaxCount = 31 ∧ c15LossClampBits = 23 ∧
+    c15RembMantissaMax = 2 ^ 18 - 1 ∧ c15RembExpMask = 63 ∧ c15RembMaxSsrcs = 255 ∧ c15NackBlpSpan = 16 ∧ c15BlpBits = 16 ∧
+    c15ByeMaxReason = 255 ∧ c15CooldownMs = 25 ∧ c15RecentFactor = 2 ∧ c15MaxReceiverNackGap = 128 ∧ c15PendingFactor = 2 ∧
+    c15GapHalf = 2 ^ 15 ∧ c15IsRtcpLo = 192 ∧ c15IsRtcpHi = 208 ∧ c15RtxPtLo = 96 ∧ c15RtxPtHi = 127 := by decide
 
 /-! ### RTP -/
 
 /-- **rtp_parse_marshal**: every logical packet inside the wire ranges (7-bit PT, ≤ 15 CSRCs, extension
-32-bit aligned and < 2^16 words; any payload, any padding length 0..255) serialises without error and
+32-bit aligned and at most 65535 words; any payload, any padding length 0..255) serialises without error and
 parsing the bytes returns exactly that packet. -/
 theorem rtp_parse_marshal (p : Packet) (w : p.hdr.WF) :
     ∃ bs, marshalPacket p = .ok bs ∧ parsePacket bs = .ok p := by
@@ -126,18 +135,22 @@ example : parsePacket [0xA0, 0x60, 0, 1, 0, 0, 0, 2, 0, 0, 0, 3, 0x55, 2, 2] =
     marshalPacket ⟨Header.new 96 1 2 3, [0x55], 2⟩ = .ok [0xA0, 0x60, 0, 1, 0, 0, 0, 2, 0, 0, 0, 3, 0x55, 2, 2] := by
   constructor <;> rfl
 
-/-- **rtp_marshal_rejects_invalid**: the two structural ranges the wire cannot carry at all are errors,
-never silent truncation: more than 15 CSRCs, or an extension payload that is not 32-bit aligned. -/
-theorem rtp_marshal_rejects_invalid (p : Packet)
-    (h : p.hdr.csrcs.length > 15 ∨ ∃ e, p.hdr.ext = some e ∧ e.data.length % 4 ≠ 0) :
-    ∃ e, marshalPacket p = .error e := by
-  unfold marshalPacket Header.validate
-  by_cases hc : p.hdr.csrcs.length > c15MaxCsrc
-  · exact ⟨_, by rw [if_pos hc]⟩
-  · rw [if_neg hc]
-    rcases h with h | ⟨e, he, hal⟩
-    · exact absurd (by simpa [c15MaxCsrc_val] using h) hc
-    · exact ⟨.hdr "header extension payload must be 32-bit aligned", by simp [he, hal]⟩
+/-- **rtp_marshal_ok_iff**: `marshal` succeeds EXACTLY on the headers the wire can carry — 7-bit payload type,
+at most 15 CSRCs, extension 32-bit aligned and at most 65535 words; everything else is an error. (The payload
+type and the extension length used to be masked / truncated silently; two `fix:` commits made them errors.) -/
+theorem rtp_marshal_ok_iff (p : Packet) : (∃ bs, marshalPacket p = .ok bs) ↔ p.hdr.WF := by
+  rw [← validate_ok_iff]
+  unfold marshalPacket
+  cases hv : p.hdr.validate with
+  | error e => exact ⟨(fun ⟨_, h⟩ => by cases h), fun h => by cases h⟩
+  | ok u => exact ⟨fun _ => rfl, fun _ => ⟨_, rfl⟩⟩
+
+/-- **rfc_layout_rtp** (conformance, RFC 3550 §5.1 / §5.3.1): an INDEPENDENT reader that indexes the datagram by
+the octet offsets of the RFC's packet diagram (`Rfc.readRtp`: V/P/X/CC, M/PT, sequence number @2, timestamp @4,
+SSRC @8, CSRCs @12, extension header and data, payload, padding count in the last octet) reads every packet the
+stack serialises as the packet that was sent. -/
+theorem rfc_layout_rtp (p : Packet) (bs : Bytes) (h : marshalPacket p = .ok bs) : Rfc.readRtp bs = some p :=
+  Rfc.rfc_rtp p ((rtp_marshal_ok_iff p).mp ⟨bs, h⟩) bs h
 
 /-! ### RTX (RFC 4588) -/
 
@@ -150,18 +163,28 @@ theorem rtx_unwrap_wrap (p : Packet) (rtxSsrc : UInt32) (rtxPt : UInt8) (rtxSeq 
              payload := p.payload, padLen := 0 } := by
   simp [unwrapRtx, wrapRtx, be16, Header.new]
 
-/-- an RTX payload shorter than the 2-byte OSN is rejected, anything longer is accepted -/
-theorem rtx_unwrap_none_iff (p : Packet) (s : UInt32) (t : UInt8) :
-    unwrapRtx p s t = none ↔ p.payload.length < 2 := by
-  unfold unwrapRtx
-  match h : p.payload with
-  | [] => simp
-  | [_] => simp
-  | _ :: _ :: _ => simp
+/-- **rtx_production_restore** — the clause "unwrapping restores sequence number, timestamp, marker and payload"
+on the PRODUCTION path: a stored packet that the NACK responder wraps (`wrap_rtx_packet` with the negotiated RTX
+SSRC / payload type and any RTX sequence number) and that the receiver passes to `maybe_unwrap_rtx` — which picks
+the primary payload type from the negotiated `apt` map and the primary SSRC from the latched SSRC — comes out with
+the original sequence number, timestamp, marker, SSRC, payload type and payload. -/
+theorem rtx_production_restore (orig : Packet) (rtxSsrc : UInt32) (rtxPt : UInt8) (rtxSeq : UInt16)
+    (apt : List (UInt8 × UInt8)) (negotiated : Option UInt32)
+    (hapt : aptLookup apt rtxPt = some orig.hdr.pt) (hlatched : orig.hdr.ssrc ≠ 0) :
+    maybeUnwrap apt negotiated orig.hdr.ssrc (wrapRtx orig rtxSsrc rtxPt rtxSeq) =
+      some { hdr := { Header.new orig.hdr.pt orig.hdr.seq orig.hdr.ts orig.hdr.ssrc with marker := orig.hdr.marker },
+             payload := orig.payload, padLen := 0 } := by
+  have h1 : (wrapRtx orig rtxSsrc rtxPt rtxSeq).hdr.pt = rtxPt := rfl
+  simp only [maybeUnwrap, h1, hapt, Option.isNone_some, Bool.false_and, Bool.false_eq_true, if_false, hlatched]
+  exact rtx_unwrap_wrap orig rtxSsrc rtxPt rtxSeq
 
-/-- `decode_osn ∘ encode_osn = id`, whatever follows the two OSN bytes -/
-theorem osn_roundtrip (v : UInt16) (rest : Bytes) : decodeOsn (encodeOsn v ++ rest) = some v := by
-  simp [decodeOsn, encodeOsn, be16]
+/-- a primary media packet (payload type not an RTX type, not on the RTX SSRC) passes through unchanged, and
+a packet on the RTX SSRC whose payload type is not an RTX type is dropped, never guessed -/
+theorem rtx_rx_passthrough (apt : List (UInt8 × UInt8)) (negotiated : Option UInt32) (ssrc : UInt32) (p : Packet)
+    (hpt : aptLookup apt p.hdr.pt = none) :
+    maybeUnwrap apt negotiated ssrc p = if negotiated = some p.hdr.ssrc then none else some p := by
+  simp only [maybeUnwrap, hpt, Option.isNone_none, Bool.true_and]
+  by_cases h : negotiated = some p.hdr.ssrc <;> simp [h]
 
 /-- **rtx_alloc_spec**: `allocate_rtx_payload_type` returns the smallest dynamic payload type 96..127
 that is not in use, and `None` only when all 32 are taken. -/
@@ -208,15 +231,33 @@ theorem rtx_alloc_spec (used : List UInt8) :
     exact ⟨by omega, by omega, c, fun q hq1 hq2 => d q (by omega) hq2⟩
   · exact this.2 hn q (by omega) (by omega)
 
-/-- **apt_roundtrip**: the association `a=fmtp:<rtx> apt=<primary>` that `append_rtx_to_section` writes is
-read back by `parse_apt` / `extract_rtx_apt_map` for every pair of payload types 0..255. -/
-theorem apt_roundtrip (rtx primary : Fin 256) :
-    parseApt (aptLower ++ dec3 primary.val) = some (u8 primary.val) ∧
-    extractApt [(fmtpKey, some (dec3 rtx.val ++ 0x20 :: (aptLower ++ dec3 primary.val)))] [] =
-      [(u8 rtx.val, u8 primary.val)] := by
-  refine ⟨parseApt_dec3 primary, ?_⟩
-  simp only [extractApt, ne_eq, not_true_eq_false, if_false, splitFirstSpace_dec3 rtx, parseU8_dec3 rtx,
-    parseApt_dec3 primary, List.filter_nil]
+/-- **rtx_append_read_back**: after `append_rtx_to_section(primary, rtx, clock)` on ANY media section that did not
+already carry the `rtpmap:<rtx> rtx/<clock>` line, `extract_rtx_apt_map` associates the RTX payload type with the
+primary one (the appended `fmtp:<rtx> apt=<primary>` line wins over whatever the section said before), and the RTX
+payload type is among the formats. -/
+theorem rtx_append_read_back (s : Section) (primary rtx : Fin 256) (clock : Nat)
+    (hnew : (s.attrs.any fun a => a.1 == rtpmapKey && a.2 == some (decNat rtx.val ++ rtxSlash ++ decNat clock)) = false) :
+    aptLookup (extractApt (appendRtx s (u8 primary.val) (u8 rtx.val) clock).attrs []) (u8 rtx.val) = some (u8 primary.val) ∧
+    decNat rtx.val ∈ (appendRtx s (u8 primary.val) (u8 rtx.val) clock).formats := by
+  have hr : (u8 rtx.val).toNat = rtx.val := u8_toNat_lt rtx.isLt
+  have hp : (u8 primary.val).toNat = primary.val := u8_toNat_lt primary.isLt
+  constructor
+  · simp only [appendRtx, hr, hp, hnew, Bool.false_eq_true, if_false]
+    exact extract_appended s.attrs primary rtx clock
+  · simp only [appendRtx, hr]
+    by_cases hc : s.formats.contains (decNat rtx.val) = true
+    · have hm : decNat rtx.val ∈ s.formats := by simpa using hc
+      split <;> simp [hc, hm]
+    · split <;> simp [hc]
+
+/-- `rtx_pt_for_primary` can only answer with a payload type that the map associates with the primary one
+(which one, if several, is the `HashMap`'s choice): the candidates are exactly the associated ones -/
+theorem rtx_candidates_spec (m : List (UInt8 × UInt8)) (primary r : UInt8) :
+    r ∈ rtxCandidates m primary ↔ (r, primary) ∈ m := by
+  simp only [rtxCandidates, List.mem_map, List.mem_filter, beq_iff_eq]
+  constructor
+  · rintro ⟨⟨a, b⟩, ⟨hm, hb⟩, ha⟩; simp only at hb ha; subst hb; subst ha; exact hm
+  · intro h; exact ⟨(r, primary), ⟨h, rfl⟩, rfl⟩
 
 /-- every RTCP packet this stack serialises is classified as RTCP by `is_rtcp` (the demultiplexer's test) -/
 theorem is_rtcp_own_output (p : Rtcp) (bs : Bytes) (h : marshalOne p = .ok bs) : isRtcp bs = true := by
@@ -225,49 +266,69 @@ theorem is_rtcp_own_output (p : Rtcp) (bs : Bytes) (h : marshalOne p = .ok bs) :
     simp only [writeRtcp, isRtcp, u8_toNat, c15IsRtcpLo_val, c15IsRtcpHi_val]
     have : pt % 256 = pt := by omega
     simp [this, h1, h2]
+  have he : ∀ fmt pt body, 192 ≤ pt → pt ≤ 208 → emit fmt pt body = .ok bs → isRtcp bs = true := by
+    intro fmt pt body h1 h2 h3
+    obtain ⟨_, rfl⟩ := emit_ok h3
+    exact hw _ _ _ h1 h2
   cases p with
   | sr s m l t pc oc bl =>
     simp only [marshalOne] at h; split at h
     · cases h
-    · injection h with h; subst h; exact hw _ _ _ (by rw [c15RtcpSr_val]; omega) (by rw [c15RtcpSr_val]; omega)
+    · exact he _ _ _ (by rw [c15RtcpSr_val]; omega) (by rw [c15RtcpSr_val]; omega) h
   | rr s bl =>
     simp only [marshalOne] at h; split at h
     · cases h
-    · injection h with h; subst h; exact hw _ _ _ (by rw [c15RtcpRr_val]; omega) (by rw [c15RtcpRr_val]; omega)
+    · exact he _ _ _ (by rw [c15RtcpRr_val]; omega) (by rw [c15RtcpRr_val]; omega) h
   | sdes cs =>
     simp only [marshalOne] at h; split at h
     · cases h
     · split at h
       · cases h
-      · injection h with h; subst h; exact hw _ _ _ (by rw [c15RtcpSdes_val]; omega) (by rw [c15RtcpSdes_val]; omega)
+      · exact he _ _ _ (by rw [c15RtcpSdes_val]; omega) (by rw [c15RtcpSdes_val]; omega) h
   | bye ss r =>
     simp only [marshalOne] at h; split at h
     · cases h
-    · injection h with h; subst h; exact hw _ _ _ (by rw [c15RtcpBye_val]; omega) (by rw [c15RtcpBye_val]; omega)
+    · exact he _ _ _ (by rw [c15RtcpBye_val]; omega) (by rw [c15RtcpBye_val]; omega) h
   | pli s m =>
-    simp only [marshalOne] at h; injection h with h; subst h
-    exact hw _ _ _ (by rw [c15RtcpPsfb_val]; omega) (by rw [c15RtcpPsfb_val]; omega)
+    simp only [marshalOne] at h
+    exact he _ _ _ (by rw [c15RtcpPsfb_val]; omega) (by rw [c15RtcpPsfb_val]; omega) h
   | fir s rq =>
-    simp only [marshalOne] at h; injection h with h; subst h
-    exact hw _ _ _ (by rw [c15RtcpPsfb_val]; omega) (by rw [c15RtcpPsfb_val]; omega)
+    simp only [marshalOne] at h
+    exact he _ _ _ (by rw [c15RtcpPsfb_val]; omega) (by rw [c15RtcpPsfb_val]; omega) h
   | nack s m lost =>
     simp only [marshalOne] at h; split at h
     · cases h
-    · injection h with h; subst h; exact hw _ _ _ (by rw [c15RtcpRtpfb_val]; omega) (by rw [c15RtcpRtpfb_val]; omega)
+    · exact he _ _ _ (by rw [c15RtcpRtpfb_val]; omega) (by rw [c15RtcpRtpfb_val]; omega) h
   | remb s br ss =>
     simp only [marshalOne] at h; split at h
     · cases h
-    · injection h with h; subst h; exact hw _ _ _ (by rw [c15RtcpPsfb_val]; omega) (by rw [c15RtcpPsfb_val]; omega)
+    · exact he _ _ _ (by rw [c15RtcpPsfb_val]; omega) (by rw [c15RtcpPsfb_val]; omega) h
   | twcc s m b c r f pl =>
-    simp only [marshalOne] at h; injection h with h; subst h
-    have h205 := hw c15FmtTwcc c15RtcpRtpfb
-    simp only [twccWire]
-    split
-    · exact h205 _ (by rw [c15RtcpRtpfb_val]; omega) (by rw [c15RtcpRtpfb_val]; omega)
-    · have := h205 (twccBody s m b c r f pl ++ List.replicate (pad4 (twccBody s m b c r f pl).length - 1) 0 ++
-          [u8 (pad4 (twccBody s m b c r f pl).length)]) (by rw [c15RtcpRtpfb_val]; omega) (by rw [c15RtcpRtpfb_val]; omega)
-      simp only [writeRtcp] at this ⊢
-      simpa [isRtcp] using this
+    simp only [marshalOne] at h; split at h
+    · cases h
+    · unfold twccEmit at h
+      split at h
+      · injection h with h; subst h
+        have h205 := hw c15FmtTwcc c15RtcpRtpfb
+        simp only [twccWire]
+        split
+        · exact h205 _ (by rw [c15RtcpRtpfb_val]; omega) (by rw [c15RtcpRtpfb_val]; omega)
+        · have := h205 (twccPadded (twccBody s m b c r f pl)) (by rw [c15RtcpRtpfb_val]; omega) (by rw [c15RtcpRtpfb_val]; omega)
+          simp only [writeRtcp] at this ⊢
+          simpa [isRtcp] using this
+      · cases h
+
+/-- the converse the demultiplexer relies on does NOT hold for every RTP packet this stack can serialise: with the
+marker bit set, payload types 64..80 put 192..208 into the second octet (the RFC 5761 §4 collision). Exactly those: -/
+theorem is_rtcp_rtp_iff (p : Packet) (bs : Bytes) (h : marshalPacket p = .ok bs) :
+    isRtcp bs = true ↔ (p.hdr.marker = true ∧ 64 ≤ p.hdr.pt.toNat ∧ p.hdr.pt.toNat ≤ 80) := by
+  have w := (rtp_marshal_ok_iff p).mp ⟨bs, h⟩
+  have hpt := w.pt
+  simp only [marshalPacket, validate_ok_of_wf w, Except.ok.injEq] at h
+  subst h
+  simp only [writeHeader, c15PtMask_eq, be16, List.cons_append, isRtcp, c15IsRtcpLo_val, c15IsRtcpHi_val, u8_toNat,
+    Bool.and_eq_true, decide_eq_true_eq]
+  cases hm : p.hdr.marker <;> simp <;> omega
 
 /-! ### header extensions (RFC 8285) -/
 
@@ -359,23 +420,37 @@ theorem ext_set_aligned (h h' : Header) (id : UInt8) (data : Bytes) (hs : setExt
   simp only [List.length_append, List.length_replicate]
   exact pad4_aligned _
 
-/-- **ext_get_canonical**: on the canonical RFC 8285 encoding of ANY element list — one-byte form
-(ids 1..14, 1..16 data bytes) or two-byte form (ids 1..255, 0..255 data bytes), followed by any amount of
-padding — `get_extension(id)` returns the data of the first element carrying that id, and nothing for an
-id that is absent. -/
-theorem ext_get_canonical (h : Header) (id : UInt8) (els : List (Nat × Bytes)) (k : Nat) :
-    ((∀ e ∈ els, ElemOk e.1 e.2) → h.ext = some ⟨0xBEDE, encodeOne els ++ List.replicate k 0⟩ →
-      getExtension h id = lookup id.toNat els) ∧
-    ((∀ e ∈ els, Elem2Ok e.1 e.2) → h.ext = some ⟨0x1000, encodeTwo els ++ List.replicate k 0⟩ →
+/-- **ext_get_canonical** (conformance, RFC 8285 §4.2 / §4.3): on the canonical encoding of ANY element list —
+one-byte form (ids 1..14, 1..16 data bytes, any number of padding octets in front of every element, optionally
+ended by the id-15 stop element followed by arbitrary octets) or two-byte form under every profile
+`0x1000..0x100F` (ids 1..255, 0..255 data bytes) — `get_extension(id)` returns the data of the first element
+carrying that id, and nothing for an id that is absent. -/
+theorem ext_get_canonical (h : Header) (id : UInt8) :
+    (∀ (els : List (Nat × Nat × Bytes)) (k : Nat) (stop : Option (UInt8 × Bytes)),
+      (∀ e ∈ els, ElemOk e.2.1 e.2.2) → (∀ b junk, stop = some (b, junk) → b.toNat / 16 = 15) →
+      h.ext = some ⟨0xBEDE, encodeOnePadded els ++
+        (match stop with | some (b, junk) => b :: junk | none => List.replicate k 0)⟩ →
+      getExtension h id = lookupP id.toNat els) ∧
+    (∀ (els : List (Nat × Bytes)) (k : Nat) (appbits : Fin 16),
+      (∀ e ∈ els, Elem2Ok e.1 e.2) → h.ext = some ⟨UInt16.ofNat (0x1000 + appbits.val), encodeTwo els ++ List.replicate k 0⟩ →
       getExtension h id = lookup id.toNat els) := by
   constructor
-  · intro hok he
+  · intro els k stop hok hstop he
     simp only [getExtension, he]
     rw [if_pos (by rw [c15OneByteProfile_val]; rfl)]
-    exact getOne_encodeOne els hok _ _
-  · intro hok he
+    apply getOne_encodeOnePadded els hok
+    cases stop with
+    | none => exact getOne_zeros _ _
+    | some bj => obtain ⟨b, junk⟩ := bj; exact getOne_stop _ b (hstop b junk rfl) junk
+  · intro els k appbits hok he
     simp only [getExtension, he]
-    rw [if_neg (by rw [c15OneByteProfile_val]; decide), if_pos (by rw [c15TwoByteProfile_val]; rfl)]
+    have t1 : ∀ a : Fin 16, ¬ (UInt16.ofNat (0x1000 + a.val)).toNat = 0xBEDE := by decide
+    have t2 : ∀ a : Fin 16, (UInt16.ofNat (0x1000 + a.val)).toNat &&& 0xFFF0 = 0x1000 := by decide
+    have h1 : ¬ (UInt16.ofNat (0x1000 + appbits.val)).toNat = c15OneByteProfile := by
+      rw [c15OneByteProfile_val]; exact t1 appbits
+    have h2 : (UInt16.ofNat (0x1000 + appbits.val)).toNat &&& c15TwoByteMask = c15TwoByteProfile := by
+      rw [c15TwoByteMask_val, c15TwoByteProfile_val]; exact t2 appbits
+    rw [if_neg h1, if_pos h2]
     exact getTwo_encodeTwo els hok _ _
 
 example : setExtension (Header.new 96 1 2 3) 5 [0xAA, 0xBB] =
@@ -391,11 +466,17 @@ theorem nack_pack_set (xs : List UInt16) (x : UInt16) : x ∈ unpackNack (packNa
   unfold packNack
   rw [mem_unpack_packSorted x _ _ rfl, mem_sortDedup]
 
-/-- the 16-bit BLP field never overflows: every mask `pack_nack_pairs` produces is below 2^16 and there
-are at most as many pairs as input sequence numbers -/
+/-- the 16-bit BLP field never overflows and a NACK never has more than 3856 (PID, BLP) pairs — for ANY input
+list (successive PIDs are more than 16 apart), so a NACK always fits the RTCP length field -/
 theorem nack_pack_fits (xs : List UInt16) :
-    (∀ p ∈ packNack xs, p.2 < 65536) ∧ (packNack xs).length ≤ xs.length :=
-  ⟨packSorted_blp_lt _ _ rfl, packNack_length_le xs⟩
+    (∀ p ∈ packNack xs, p.2 < 65536) ∧ (packNack xs).length ≤ 3856 :=
+  ⟨packSorted_blp_lt _ _ rfl, packNack_count xs⟩
+
+/-- **nack_wire_order**: what comes back is the ascending, duplicate-free enumeration of the set — so a strictly
+ascending list round-trips as a LIST (this replaces the fixed-point condition `unpack (pack l) = l`) -/
+theorem nack_wire_order (xs : List UInt16) :
+    unpackNack (packNack xs) = sortDedup xs ∧ Asc (sortDedup xs) ∧ (Asc xs → unpackNack (packNack xs) = xs) :=
+  ⟨unpack_packSorted_asc _ _ rfl (sortDedup_sorted xs), sortDedup_sorted xs, unpack_pack_asc xs⟩
 
 example : packNack [65535, 0, 1, 65534] = [(0, 1), (65534, 1)] ∧
     unpackNack (packNack [65535, 0, 1, 65534]) = [0, 1, 65534, 65535] := by
@@ -404,12 +485,13 @@ example : packNack [65535, 0, 1, 65534] = [(0, 1), (65534, 1)] ∧
 
 /-! ### RTCP -/
 
-/-- **rtcp_marshal_canonical** — the full-strength inverse law: for EVERY compound packet the
-marshaller accepts (inside `Dom`: Rust-type invariants, SDES item type ≠ END, bodies that fit the 16-bit
-length field), parsing the bytes succeeds, yields the same number of packets of the same types, and
-each packet is the explicit canonical form `canon p` of what was sent (saturated loss count, BYE reason
-cut at 255 bytes, NACK list in wire order, REMB rounded to 18 significant bits, TWCC reference time mod
-2^24). -/
+/-- **rtcp_marshal_canonical** — the full-strength inverse law: for EVERY compound packet the marshaller accepts —
+the only assumption is what the Rust types guarantee (`Dom`: text is valid UTF-8, the REMB bitrate is a `u64`) —
+parsing the bytes succeeds, yields the same number of packets of the same types, and each packet is the explicit
+canonical form `canon p`: identical except for the three fields the wire formats make lossy (loss count saturated
+at 24-bit signed, REMB bitrate rounded to 18 significant bits, NACK list in ascending wire order) and a BYE reason
+cut to whole characters within 255 bytes. No size bounds: a body that does not fit the 16-bit length field is an
+error of the marshaller (`rtcp_marshal_ok_iff`), not a hypothesis. -/
 theorem rtcp_marshal_canonical (ps : List Rtcp) (hd : ∀ p ∈ ps, Dom p) (bs : Bytes)
     (hm : marshalCompound ps = .ok bs) : parseCompound bs = .ok (ps.map canon) := by
   induction ps generalizing bs with
@@ -470,16 +552,18 @@ theorem rtcp_parse_marshal_rr (s : UInt32) (bl : List ReportBlock) (hn : bl.leng
     ∃ bs, marshalCompound [.rr s bl] = .ok bs ∧ parseCompound bs = .ok [.rr s bl] :=
   rtcp_compound_roundtrip _ (by intro p hp; simp only [List.mem_singleton] at hp; subst hp; exact ⟨hn, hl⟩)
 
-/-- **SDES**: ≤ 31 chunks, every item of type ≠ END with ≤ 255 bytes of valid UTF-8, body fits the length field -/
+/-- **SDES**: ≤ 31 chunks, every item of type ≠ END with ≤ 255 bytes of RFC 3629-valid UTF-8, body within the
+16-bit length field -/
 theorem rtcp_parse_marshal_sdes (cs : List SdesChunk) (hn : cs.length ≤ 31)
-    (hi : ∀ c ∈ cs, ∀ i ∈ c.items, i.ty ≠ 0 ∧ i.text.length ≤ 255 ∧ lossy i.text = i.text)
-    (hsz : (sdesBody [] cs).length + 3 < 262144) :
+    (hi : ∀ c ∈ cs, ∀ i ∈ c.items, i.ty ≠ 0 ∧ i.text.length ≤ 255 ∧ utf8Valid i.text = true)
+    (hsz : fits (sdesBody [] cs) = true) :
     ∃ bs, marshalCompound [.sdes cs] = .ok bs ∧ parseCompound bs = .ok [.sdes cs] :=
   rtcp_compound_roundtrip _ (by intro p hp; simp only [List.mem_singleton] at hp; subst hp; exact ⟨hn, hi, hsz⟩)
 
-/-- **BYE**: ≤ 31 sources, optional reason of ≤ 255 bytes of valid UTF-8 (`Some("")` and `None` are distinct and both preserved) -/
+/-- **BYE**: ≤ 31 sources, optional reason of ≤ 255 bytes of valid UTF-8 (`Some("")` and `None` are distinct and
+both preserved) -/
 theorem rtcp_parse_marshal_bye (ss : List UInt32) (r : Option Bytes) (hn : ss.length ≤ 31)
-    (hr : ∀ x, r = some x → x.length ≤ 255 ∧ lossy x = x) :
+    (hr : ∀ x, r = some x → x.length ≤ 255 ∧ utf8Valid x = true) :
     ∃ bs, marshalCompound [.bye ss r] = .ok bs ∧ parseCompound bs = .ok [.bye ss r] :=
   rtcp_compound_roundtrip _ (by intro p hp; simp only [List.mem_singleton] at hp; subst hp; exact ⟨hn, hr⟩)
 
@@ -488,116 +572,54 @@ theorem rtcp_parse_marshal_pli (s m : UInt32) :
     ∃ bs, marshalCompound [.pli s m] = .ok bs ∧ parseCompound bs = .ok [.pli s m] :=
   rtcp_compound_roundtrip _ (by intro p hp; simp only [List.mem_singleton] at hp; subst hp; trivial)
 
-/-- **FIR**: any number of entries that fits the length field -/
-theorem rtcp_parse_marshal_fir (s : UInt32) (rq : List FirReq) (hn : rq.length ≤ 30000) :
+/-- **FIR**: as many entries as the length field can describe (32766) -/
+theorem rtcp_parse_marshal_fir (s : UInt32) (rq : List FirReq) (hn : rq.length ≤ 32766) :
     ∃ bs, marshalCompound [.fir s rq] = .ok bs ∧ parseCompound bs = .ok [.fir s rq] :=
   rtcp_compound_roundtrip _ (by intro p hp; simp only [List.mem_singleton] at hp; subst hp; exact hn)
 
-/-- **generic NACK** through the wire: a non-empty list comes back as a list with exactly the same
-members (wrap-around included) -/
-theorem rtcp_parse_marshal_nack (s m : UInt32) (lost : List UInt16) (hne : lost ≠ []) (hn : lost.length ≤ 60000) :
+/-- **generic NACK** through the wire: EVERY non-empty list (any length, any order, duplicates, across the wrap)
+comes back as a list with exactly the same members -/
+theorem rtcp_parse_marshal_nack (s m : UInt32) (lost : List UInt16) (hne : lost ≠ []) :
     ∃ bs lost', marshalCompound [.nack s m lost] = .ok bs ∧ parseCompound bs = .ok [.nack s m lost'] ∧
       ∀ x, x ∈ lost' ↔ x ∈ lost := by
-  have hemp : lost.isEmpty = false := by cases lost with | nil => exact absurd rfl hne | cons _ _ => rfl
-  have hm : marshalCompound [.nack s m lost] = .ok (writeRtcp c15FmtNack c15RtcpRtpfb
-      (be32 s ++ be32 m ++ (packNack lost).flatMap pairBytes) ++ []) := by
-    simp only [marshalCompound, marshalOne, hemp]; rfl
+  obtain ⟨b, hb⟩ := (marshalOne_ok_iff (.nack s m lost)).mpr hne
+  have hm : marshalCompound [.nack s m lost] = .ok (b ++ []) := by simp only [marshalCompound, hb]
   refine ⟨_, unpackNack (packNack lost), hm, ?_, nack_pack_set lost⟩
-  rw [rtcp_marshal_canonical _ (by intro p hp; simp only [List.mem_singleton] at hp; subst hp; exact hn) _ hm]
+  rw [rtcp_marshal_canonical _ (by intro p hp; simp only [List.mem_singleton] at hp; subst hp; trivial) _ hm]
   rfl
 
-/-- **REMB**: ≤ 255 SSRCs and a representable bitrate (`rembCanon br = br`: at most 18 significant bits) -/
+/-- **REMB**: ≤ 255 SSRCs and a bitrate of at most 18 significant bits (an 18-bit mantissa times a power of two) -/
 theorem rtcp_parse_marshal_remb (s : UInt32) (br : Nat) (ss : List UInt32) (hn : ss.length ≤ 255)
-    (hb : br < 2 ^ 64) (hrep : rembCanon br = br) :
+    (hb : br < 2 ^ 64) (hrep : ∃ m e, m < 2 ^ 18 ∧ br = m * 2 ^ e) :
     ∃ bs, marshalCompound [.remb s br ss] = .ok bs ∧ parseCompound bs = .ok [.remb s br ss] :=
   rtcp_compound_roundtrip _ (by intro p hp; simp only [List.mem_singleton] at hp; subst hp; exact ⟨hn, hb, hrep⟩)
 
-/-- **remb_wire_values_representable**: every bitrate the REMB wire format can express — an 18-bit
-mantissa times a power of two, below 2^64 — satisfies the representability hypothesis of
-`rtcp_parse_marshal_remb` (so e.g. every bitrate below 262 144 bps and every such value scaled by 2^e). -/
-theorem remb_wire_values_representable (m e : Nat) (hm : m < 2 ^ 18) (hv : m * 2 ^ e < 2 ^ 64) :
-    rembCanon (m * 2 ^ e) = m * 2 ^ e :=
-  rembCanon_wire m e (by omega) hv
+/-- **remb_representable_iff** — the REMB range characterised from both sides: a `u64` bitrate survives the
+mantissa/exponent encoding unchanged exactly when it is an 18-bit mantissa times a power of two -/
+theorem remb_representable_iff (br : Nat) (hb : br < 2 ^ 64) :
+    rembCanon br = br ↔ ∃ m e, m < 2 ^ 18 ∧ br = m * 2 ^ e :=
+  rembCanon_fixed_iff br hb
 
-/-- **TWCC**: 24-bit reference time and an opaque status/delta payload of ANY length (an unaligned
-payload is carried with RTCP padding since the `fix:` commit; before it the payload came back
-zero-extended) -/
+/-- **TWCC**: 24-bit reference time and an opaque status/delta payload of ANY length the length field can
+describe (an unaligned payload is carried with RTCP padding since a `fix:` commit) -/
 theorem rtcp_parse_marshal_twcc (s m : UInt32) (b c : UInt16) (r : UInt32) (f : UInt8) (pl : Bytes)
-    (hr : r.toNat < 16777216) (hn : pl.length ≤ 200000) :
+    (hr : r.toNat < 16777216) (hn : pl.length ≤ 262124) :
     ∃ bs, marshalCompound [.twcc s m b c r f pl] = .ok bs ∧ parseCompound bs = .ok [.twcc s m b c r f pl] :=
   rtcp_compound_roundtrip _ (by intro p hp; simp only [List.mem_singleton] at hp; subst hp; exact ⟨hr, hn⟩)
 
-example : Rtcp.WF (.remb 1 750000 [2, 3]) := by
-  refine ⟨by decide, by decide, ?_⟩
-  simp [rembCanon, rembNorm, c15RembMantissaMax_val]
+example : Rtcp.WF (.remb 1 750000 [2, 3]) := ⟨by decide, by decide, 187500, 2, by decide, by decide⟩
 
 example : Rtcp.WF (.rr 7 [⟨1, 2, -8388608, 3, 4, 5, 6⟩, ⟨1, 2, 8388607, 3, 4, 5, 6⟩]) :=
   ⟨by decide, by intro b hb; simp at hb; rcases hb with rfl | rfl <;> decide⟩
 
-/-- out-of-range inputs that cannot be put on the wire at all -/
-def OutOfRange : Rtcp → Prop
-  | .sr _ _ _ _ _ _ bl => bl.length > 31
-  | .rr _ bl => bl.length > 31
-  | .sdes cs => cs.length > 31 ∨ ∃ c ∈ cs, ∃ i ∈ c.items, i.text.length > 255
-  | .bye ss _ => ss.length > 31
-  | .nack _ _ lost => lost = []
-  | .remb _ _ ss => ss.length > 255
-  | _ => False
-
-/-- **rtcp_marshal_rejects_out_of_range**: the marshaller returns an error exactly for the inputs whose
-count or length field would overflow (more than 31 report blocks / chunks / sources, SDES text above 255
-bytes, more than 255 REMB SSRCs) and for an empty NACK — never a silently mis-framed packet
-(true since the `fix:` commit; before it the first three classes were serialised with `count & 0x1F`
-/ `len as u8`). Everything else is serialised, and `rtcp_marshal_canonical` says what comes back. -/
-theorem rtcp_marshal_rejects_out_of_range (p : Rtcp) : (∃ e, marshalOne p = .error e) ↔ OutOfRange p := by
-  have hMax : c15RtcpMaxCount = 31 := c15RtcpMaxCount_val
-  have h255 : c15RembMaxSsrcs = 255 := c15RembMaxSsrcs_val
-  cases p with
-  | sr s m l t pc oc bl =>
-    simp only [marshalOne, OutOfRange]
-    by_cases hc : bl.length > c15RtcpMaxCount
-    · rw [if_pos hc]; exact ⟨fun _ => by omega, fun _ => ⟨_, rfl⟩⟩
-    · rw [if_neg hc]; exact ⟨(fun ⟨e, he⟩ => by cases he), fun h => by omega⟩
-  | rr s bl =>
-    simp only [marshalOne, OutOfRange]
-    by_cases hc : bl.length > c15RtcpMaxCount
-    · rw [if_pos hc]; exact ⟨fun _ => by omega, fun _ => ⟨_, rfl⟩⟩
-    · rw [if_neg hc]; exact ⟨(fun ⟨e, he⟩ => by cases he), fun h => by omega⟩
-  | sdes cs =>
-    simp only [marshalOne, OutOfRange]
-    by_cases hc : cs.length > c15RtcpMaxCount
-    · rw [if_pos hc]; exact ⟨fun _ => Or.inl (by omega), fun _ => ⟨_, rfl⟩⟩
-    · rw [if_neg hc]
-      cases htl : sdesTextTooLong cs with
-      | true =>
-        simp only [if_true]
-        refine ⟨fun _ => Or.inr ?_, fun _ => ⟨_, rfl⟩⟩
-        simp only [sdesTextTooLong, List.any_eq_true, decide_eq_true_eq] at htl
-        exact htl
-      | false =>
-        simp only [Bool.false_eq_true, if_false]
-        refine ⟨(fun ⟨e, he⟩ => by cases he), ?_⟩
-        rintro (h | ⟨c, hc', i, hi, hgt⟩)
-        · omega
-        · have := sdesTextTooLong_false htl c hc' i hi; omega
-  | bye ss r =>
-    simp only [marshalOne, OutOfRange]
-    by_cases hc : ss.length > c15RtcpMaxCount
-    · rw [if_pos hc]; exact ⟨fun _ => by omega, fun _ => ⟨_, rfl⟩⟩
-    · rw [if_neg hc]; exact ⟨(fun ⟨e, he⟩ => by cases he), fun h => by omega⟩
-  | pli s m => simp only [marshalOne, OutOfRange]; exact ⟨(fun ⟨e, he⟩ => by cases he), False.elim⟩
-  | fir s rq => simp only [marshalOne, OutOfRange]; exact ⟨(fun ⟨e, he⟩ => by cases he), False.elim⟩
-  | nack s m lost =>
-    simp only [marshalOne, OutOfRange]
-    cases lost with
-    | nil => exact ⟨fun _ => rfl, fun _ => ⟨_, rfl⟩⟩
-    | cons a as => exact ⟨(fun ⟨e, he⟩ => by simp at he), fun h => by cases h⟩
-  | remb s br ss =>
-    simp only [marshalOne, OutOfRange]
-    by_cases hc : ss.length > c15RembMaxSsrcs
-    · rw [if_pos hc]; exact ⟨fun _ => by omega, fun _ => ⟨_, rfl⟩⟩
-    · rw [if_neg hc]; exact ⟨(fun ⟨e, he⟩ => by cases he), fun h => by omega⟩
-  | twcc s m b c r f pl => simp only [marshalOne, OutOfRange]; exact ⟨(fun ⟨e, he⟩ => by cases he), False.elim⟩
+/-- **rtcp_marshal_ok_iff** — exactly which logical packets the marshaller serialises (`Encodable`): counts within
+their 5- or 8-bit fields, SDES items of type ≠ END with ≤ 255 bytes, 24-bit TWCC reference time, a non-empty NACK, a
+body within the 16-bit length field. Everything else is an ERROR — after the `fix:` commits of this property no
+input is serialised into a packet that frames differently from what was given (before them, oversize counts, SDES
+text, item type 0, oversize bodies and TWCC reference times were written truncated or masked). Values that fit but
+are lossy on the wire are accepted and `rtcp_marshal_canonical` says what comes back. -/
+theorem rtcp_marshal_ok_iff (p : Rtcp) : (∃ bs, marshalOne p = .ok bs) ↔ Encodable p :=
+  marshalOne_ok_iff p
 
 /-- The naive full statement "whatever the marshaller accepts parses back unchanged" is FALSE — values
 outside the field ranges are saturated / cut / rounded rather than rejected (by design: RFC 3550
@@ -616,13 +638,87 @@ theorem rtcp_marshal_identity_all_witness :
   revert h3
   decide
 
+/-! ### conformance: the serialised bytes, read by the RFC diagrams -/
+
+/-- **rfc_layout_sr / rr** (RFC 3550 §6.4.1/§6.4.2): V=2, P=0, RC = number of blocks, PT, length = words − 1; sender
+SSRC @4; NTP @8/@12, RTP timestamp @16, packet and octet counts @20/@24; report block i at @28+24i (@8+24i for RR)
+with SSRC, fraction lost (8), cumulative lost (24, two's complement, saturated), highest sequence, jitter, LSR, DLSR. -/
+theorem rfc_layout_sr (s m l t pc oc : UInt32) (bl : List ReportBlock) (bs : Bytes)
+    (h : marshalOne (.sr s m l t pc oc bl) = .ok bs) : Rfc.readSr bs = some (canon (.sr s m l t pc oc bl)) :=
+  Rfc.rfc_sr s m l t pc oc bl bs h
+
+theorem rfc_layout_rr (s : UInt32) (bl : List ReportBlock) (bs : Bytes) (h : marshalOne (.rr s bl) = .ok bs) :
+    Rfc.readRr bs = some (canon (.rr s bl)) :=
+  Rfc.rfc_rr s bl bs h
+
+/-- **rfc_layout_sdes** (RFC 3550 §6.5): SC = number of chunks; each chunk is its SSRC, the items `type length text`,
+then one to four null octets ending on a 32-bit boundary — chunk after chunk, nothing else. -/
+theorem rfc_layout_sdes (cs : List SdesChunk) (bs : Bytes) (h : marshalOne (.sdes cs) = .ok bs) : Rfc.isSdes bs cs :=
+  Rfc.rfc_sdes cs bs h
+
+/-- **rfc_layout_bye** (RFC 3550 §6.6): SC SSRCs from @4; then nothing (no reason), or a length octet and that many
+octets of reason (the possibly cut text), zero-filled to the boundary. -/
+theorem rfc_layout_bye (ss : List UInt32) (r : Option Bytes) (bs : Bytes) (h : marshalOne (.bye ss r) = .ok bs) :
+    Rfc.readBye bs = some (ss, r.map fun x => x.take (byeCut x (min x.length c15ByeMaxReason))) :=
+  Rfc.rfc_bye ss r bs h
+
+/-- **rfc_layout_pli / fir** (RFC 4585 §6.3.1, RFC 5104 §4.3.1.1): PT=206, FMT=1 resp. 4, sender SSRC @4, media
+source @8 (for FIR: zero, as the RFC demands); FIR entries SSRC (32), sequence number (8), reserved (24) = 0. -/
+theorem rfc_layout_pli (s m : UInt32) (bs : Bytes) (h : marshalOne (.pli s m) = .ok bs) : Rfc.readPli bs = some (.pli s m) :=
+  Rfc.rfc_pli s m bs h
+
+theorem rfc_layout_fir (s : UInt32) (rq : List FirReq) (bs : Bytes) (h : marshalOne (.fir s rq) = .ok bs) :
+    Rfc.readFir bs = some (.fir s rq) :=
+  Rfc.rfc_fir s rq bs h
+
+/-- **rfc_layout_nack** (RFC 4585 §6.2.1): PT=205, FMT=1, sender / media SSRC @4/@8, and the (PID, BLP) pairs from
+@12 — with BLP bit i (least significant = 0) standing for PID+i+1 — denote EXACTLY the set of lost sequence numbers. -/
+theorem rfc_layout_nack (s m : UInt32) (lost : List UInt16) (bs : Bytes) (h : marshalOne (.nack s m lost) = .ok bs) :
+    Rfc.isNack bs s m ∧ ∀ x, Rfc.nackDenotes bs x ↔ x ∈ lost :=
+  Rfc.rfc_nack s m lost bs h
+
+/-- **rfc_layout_remb** (draft-alvestrand-rmcat-remb §2): PT=206, FMT=15, media source 0, "REMB" @12, Num SSRC @16,
+6-bit exponent and 18-bit mantissa @17..19 with bitrate = mantissa · 2^exp, SSRCs from @20. -/
+theorem rfc_layout_remb (s : UInt32) (br : Nat) (ss : List UInt32) (hb : br < 2 ^ 64) (bs : Bytes)
+    (h : marshalOne (.remb s br ss) = .ok bs) : Rfc.readRemb bs = some (canon (.remb s br ss)) :=
+  Rfc.rfc_remb s br ss hb bs h
+
+/-- **rfc_layout_twcc** (draft-holmer-rmcat-transport-wide-cc-extensions §3.1): PT=205, FMT=15, base sequence @12,
+status count @14, 24-bit reference time @16, feedback count @19, chunks/deltas from @20, RTCP padding (P bit and
+count octet) when the payload is not 32-bit aligned. -/
+theorem rfc_layout_twcc (s m : UInt32) (b c : UInt16) (r : UInt32) (f : UInt8) (pl : Bytes) (bs : Bytes)
+    (h : marshalOne (.twcc s m b c r f pl) = .ok bs) : Rfc.readTwcc bs = some (.twcc s m b c r f pl) :=
+  Rfc.rfc_twcc s m b c r f pl bs h
+
+/-! ### the other direction: wire → packets → wire -/
+
+/-- **rtcp_semantic_stable**: for EVERY byte string the RTCP parser accepts, if the parsed packets can be serialised
+again, parsing that serialisation yields the canonical form of the parsed packets — nothing but `canon` can happen
+to them (no hypothesis on the input: what the parser returns is always inside `Dom`). When re-serialisation is
+refused is exactly `rtcp_marshal_ok_iff` (e.g. a received NACK without FCI, or ill-formed UTF-8 whose U+FFFD
+replacement grows an SDES text beyond 255 bytes). -/
+theorem rtcp_semantic_stable (bs bs' : Bytes) (ps : List Rtcp) (hp : parseCompound bs = .ok ps)
+    (hm : marshalCompound ps = .ok bs') : parseCompound bs' = .ok (ps.map canon) :=
+  rtcp_marshal_canonical ps (parseCompound_dom bs ps hp) bs' hm
+
+/-- … and for every parsed SR, RR, SDES, PLI, FIR and TWCC packet the canonical form IS the packet (parsed loss
+counts are 24-bit, parsed reference times 24-bit …): only the three lossy fields (NACK order, a BYE reason whose
+lossy decoding grew beyond 255 bytes, a REMB mantissa·2^exp that overflowed 64 bits) can differ after a
+parse → marshal → parse cycle. -/
+theorem rtcp_parsed_fields_canonical (bs : Bytes) (ps : List Rtcp) (hp : parseCompound bs = .ok ps) :
+    ∀ p ∈ ps, CanonFixed p :=
+  parseCompound_canonFixed bs ps hp
+
 /-! ### text fields -/
 
-/-- **utf8_valid_lossy_id**: the hypothesis `lossy t = t` used for SDES / BYE text above is implied by
-RFC 3629 well-formedness — which every Rust `String` satisfies — so the round-trip theorems apply to
-every logical packet the Rust types can hold. -/
+/-- **utf8_valid_lossy_id / utf8_lossy_valid**: RFC 3629 well-formedness (`utf8Valid`, an independent definition)
+implies `from_utf8_lossy` is the identity — so the text hypothesis of the round-trip theorems is the plain type
+invariant of a Rust `String` — and whatever `from_utf8_lossy` returns is well-formed. -/
 theorem utf8_valid_lossy_id (bs : Bytes) (h : utf8Valid bs = true) : lossy bs = bs :=
   lossy_of_valid _ bs rfl h
+
+theorem utf8_lossy_valid (bs : Bytes) : utf8Valid (lossy bs) = true :=
+  utf8Valid_lossy _ bs rfl
 
 example : utf8Valid [0x75, 0x73, 0x65, 0x72, 0x40, 0xC3, 0xA9, 0xE6, 0xBC, 0xA2, 0xF0, 0x9F, 0x98, 0x80] = true := by decide
 example : utf8Valid [0xC0, 0x80] = false ∧ utf8Valid [0xED, 0xA0, 0x80] = false ∧ utf8Valid [0xE6, 0xBC] = false := by decide
@@ -652,6 +748,7 @@ theorem nackbuf_bounded (maxSize : Nat) (ops : List BufOp) :
         | sent ssrc s t => simp only [NackBuf.step, NackBuf.push]; split <;> (try split) <;> rfl
         | setRtx ssrc => rfl
         | query n q => rfl
+        | nack n q => rfl
     exact this ops _
   exact ⟨by rw [hl, ← hm]; exact i.bounded, hl, i.nodup, mem_order_iff i⟩
 
@@ -661,11 +758,35 @@ theorem nackbuf_latest (maxSize : Nat) (ops : List BufOp) (s : UInt16) (t : Nat)
     mapGet ((bufFinal (NackBuf.new maxSize) ops).push s t).packets s = some t :=
   push_get_self (inv_final (inv_new maxSize) ops) s t
 
-/-- RTX retransmissions (packets carrying the configured RTX SSRC) are never stored in the send buffer,
-so a NACK can never be answered with an RTX packet wrapped in RTX again. -/
-theorem nackbuf_never_buffers_rtx (b : NackBuf) (seq : UInt16) (tag : Nat) (h : b.rtxSsrc ≠ 0) :
-    (b.step (.sent b.rtxSsrc seq tag)).1 = b := by
-  simp [NackBuf.step, h]
+/-- **nack_response_rtx**: answering a NACK with RTX enabled wraps the selected stored packets, in order, with
+CONSECUTIVE RTX sequence numbers starting at the handler's counter (wrapping at 2^16), advances the counter by
+the number of packets sent, and resends nothing else; without RTX the packets are resent unchanged and the
+counter does not move. -/
+theorem nack_response_rtx (ctr : UInt16) (xs : List (UInt16 × Nat)) :
+    (respondRtx true ctr xs).1.map (fun e => (e.1, e.2.1)) = xs ∧
+    (∀ (i : Nat) (hi : i < (respondRtx true ctr xs).1.length), ((respondRtx true ctr xs).1[i]).2.2 = some (ctr + UInt16.ofNat i)) ∧
+    (respondRtx true ctr xs).2 = ctr + UInt16.ofNat xs.length ∧
+    (respondRtx false ctr xs).1 = xs.map (fun e => (e.1, e.2, none)) ∧ (respondRtx false ctr xs).2 = ctr := by
+  induction xs generalizing ctr with
+  | nil => simp [respondRtx]
+  | cons x xs ih =>
+    obtain ⟨s, t⟩ := x
+    obtain ⟨h1, h2, h3, h4, h5⟩ := ih (ctr + 1)
+    obtain ⟨_, _, _, g4, g5⟩ := ih ctr
+    simp only [respondRtx, if_true, Bool.false_eq_true, if_false, List.map_cons, List.length_cons]
+    refine ⟨by rw [h1], ?_, ?_, by rw [g4], g5⟩
+    · intro i hi
+      cases i with
+      | zero => simp
+      | succ j =>
+        have := h2 j (by simpa using hi)
+        simp only [List.getElem_cons_succ, this]
+        congr 1
+        apply UInt16.toNat_inj.mp
+        simp [UInt16.toNat_add]; omega
+    · rw [h3]
+      apply UInt16.toNat_inj.mp
+      simp [UInt16.toNat_add]; omega
 
 /-- **nackbuf_fifo**: one send changes the FIFO in exactly one of three ways — nothing (sequence number
 already buffered), append, or append and drop the single OLDEST entry (only when the buffer is full). -/
@@ -700,7 +821,8 @@ theorem gap_lost_exact (st : GapSt) (ssrc : UInt32) (seq : UInt16)
   rw [if_neg h1]
   simp only [hinit, Bool.not_true, Bool.false_eq_true, if_false, hp]
   rw [if_pos h4]
-  refine ⟨_, rfl, ?_, ?_, rfl⟩
+  refine ⟨seqRun (st.lastSeq + 1 + UInt16.ofNat ((seq - st.lastSeq).toNat - 1 - c15MaxReceiverNackGap))
+    ((seq - st.lastSeq).toNat - 1 - ((seq - st.lastSeq).toNat - 1 - c15MaxReceiverNackGap)), by split <;> rfl, ?_, ?_, by split <;> rfl⟩
   · rw [seqRun_length, hG]; omega
   · intro x
     rw [mem_seqRun, hG]
@@ -751,5 +873,28 @@ theorem gap_no_spurious_nack (st : GapSt) (ssrc : UInt32) (seq : UInt16) (lost :
             · exact absurd ⟨h0, hh⟩ h1
         · rw [if_neg h4] at h
           split at h <;> cases h
+
+/-- **gap_pending_bounded**: the set of requested-but-not-yet-recovered sequence numbers never exceeds
+`2 · MAX_RECEIVER_NACK_GAP` = 256 entries, whatever arrives (when a step would exceed it the set is cut back to
+128 entries — WHICH entries survive is the `HashSet`'s choice and not claimed). -/
+theorem gap_pending_bounded (st : GapSt) (ssrc : UInt32) (seq : UInt16) (h : st.pending.length ≤ 256) :
+    (st.step ssrc seq).1.pending.length ≤ 256 := by
+  have hG := c15MaxReceiverNackGap_eq
+  have hF := c15PendingFactor_eq
+  unfold GapSt.step
+  split
+  · simp
+  · split
+    · exact h
+    · split
+      · exact Nat.le_trans (List.length_filter_le _ _) h
+      · simp only
+        split
+        · split
+          · simp only [List.length_drop]; rw [hG]; omega
+          · next hle =>
+            have h256 : c15MaxReceiverNackGap * c15PendingFactor = 256 := by rw [hG, hF]
+            rw [h256] at hle; simp only; omega
+        · split <;> exact h
 
 end RtcModel.Theorems.C15
